@@ -286,6 +286,30 @@ def run (s : State) : List Op → State
   | [] => s
   | op :: ops => run (step s op).1 ops
 
+/-! ## a call that hands work to a member of another object
+
+`section[name] = v` for a name in use runs `property.values = v`; `dim.label = …` on a linked
+`RangeDimension` runs the `DimensionLink`'s setter; a creating function runs setters on the entity it
+has made.  Such a nested call is admitted exactly where the source has one: the name `f` must be in
+the generated `foreign` list of the member the outer call resolves to.  Its effect is that of the
+inner call (on behalf of entity `d`, on one of the paths of the member `f` resolves to there)
+followed by the outer member's own outcome. -/
+
+def callDelegating (s : State) (e : Nat) (via : Option Cls) (m : Mem) (o : Outcome)
+    (d : Nat) (dvia : Option Cls) (f : Mem) (fo : Outcome) : State × Res :=
+  match aliveAt s e with
+  | none => (s, .bad)
+  | some ent =>
+    match resolve (via.getD ent.kind.cls) m with
+    | none => (s, .bad)
+    | some mb =>
+      if !mb.foreign.contains f then (s, .bad)       -- the body invokes no such member on another object
+      else
+        let r1 := step s (.call d dvia f fo)
+        match r1.2 with
+        | .bad => (s, .bad)
+        | _ => step r1.1 (.call e via m o)
+
 /-! ## observation -/
 
 /-- the getters `created_at` / `updated_at`: `str_to_time(attr)`, `None` when the attribute is missing -/
